@@ -130,7 +130,7 @@ func (g *c20Gen) typ(depth int) reflect.Type {
 	case 5:
 		return reflect.MapOf(reflect.TypeOf(""), g.typ(depth-1))
 	}
-	return reflect.MapOf(reflect.TypeOf(0), g.typ(depth-1))
+	return reflect.MapOf([]reflect.Type{reflect.TypeOf(0), reflect.TypeOf(uint8(0)), reflect.TypeOf(uint64(0)), reflect.TypeOf(int8(0)), reflect.TypeOf(int64(0))}[g.r.Intn(5)], g.typ(depth-1))
 }
 
 func (g *c20Gen) structType(depth int) reflect.Type {
@@ -216,10 +216,13 @@ func (g *c20Gen) fill(v reflect.Value) {
 			n := 1 + g.r.Intn(3)
 			for i := 0; i < n; i++ {
 				k := reflect.New(v.Type().Key()).Elem()
-				if k.Kind() == reflect.String {
+				switch k.Kind() {
+				case reflect.String:
 					k.SetString(fmt.Sprintf("k%d", i))
-				} else {
-					k.SetInt(int64(i * 7))
+				case reflect.Uint8, reflect.Uint64:
+					k.SetUint(uint64(i*7 + 1))
+				default:
+					k.SetInt(int64(i*7 - 3))
 				}
 				e := reflect.New(v.Type().Elem()).Elem()
 				g.fill(e)
@@ -282,7 +285,7 @@ func TestVerifBoundedC20(t *testing.T) {
 			check(v)
 		}
 	}
-	fmt.Printf("BOUNDED name=C20.dump cases=%d bound=%d seeded random values of run-time synthesised struct types (depth %d: structs incl. empty and partly/all unexported, pointers, slices, arrays, string- and int-keyed maps; scalars at their extremes incl. MaxUint64, MinInt64, float32 0.1) + 120 directed single-field structs: the dump decodes (json, UseNumber) to the prescribed document\n", cases, n, depth)
+	fmt.Printf("BOUNDED name=C20.dump cases=%d bound=%d seeded random values of run-time synthesised struct types (depth %d: structs incl. empty and partly/all unexported, pointers, slices, arrays, string-, int- and uint-keyed maps; scalars at their extremes incl. MaxUint64, MinInt64, float32 0.1) + 120 directed single-field structs: the dump decodes (json, UseNumber) to the prescribed document\n", cases, n, depth)
 	if viol > 0 {
 		t.Fatalf("%d violations", viol)
 	}
